@@ -27,40 +27,49 @@ def renderRoute (ds : Dataset) (r : Route) : String :=
   s!"{r.departureTime} {r.arrivalTime} {r.totalTravelTime} {r.totalDistance} {r.totalInVehicleTime} {r.totalInVehicleDistance} {r.totalNonTransitTravelTime} {r.totalNonTransitDistance} {r.numberOfBoardings} {r.numberOfTransfers} {r.transferWalkingTime} {r.transferWalkingDistance} {r.accessTravelTime} {r.accessDistance} {r.egressTravelTime} {r.egressDistance} {r.transferWaitingTime} {r.firstWaitingTime} {r.totalWaitingTime} ; "
     ++ ", ".intercalate (r.steps.map (renderStep ds))
 
+/-- the calculation both `/v2/route` and `/v2/summary` run: routes and `totalRoutesCalculated` -/
+def routeAnswer (ds : Dataset) (p : Params) : Outcome (List Route × Nat) :=
+  if p.alternatives then alternativesRouting ds p
+  else match calculateSingle ds p with
+    | .ok r => .ok ([r], 1)
+    | .noRouting r => .noRouting r
+    | .exception w => .exception w
+
 /-- `/v2/route` -/
 def renderRouteAnswer (ds : Dataset) (p : Params) : String :=
-  if p.alternatives then
-    match alternativesRouting ds p with
-    | .ok (rs, n) => s!"route success n={n} ## " ++ " ## ".intercalate (rs.map (renderRoute ds))
-    | .noRouting r => s!"route no_routing_found {routeReasonString r}"
-    | .exception w => s!"route exception {w}"
-  else
-    match calculateSingle ds p with
-    | .ok r => s!"route success n=1 ## " ++ renderRoute ds r
-    | .noRouting r => s!"route no_routing_found {routeReasonString r}"
-    | .exception w => s!"route exception {w}"
+  match routeAnswer ds p with
+  | .ok (rs, n) => s!"route success n={n} ## " ++ " ## ".intercalate (rs.map (renderRoute ds))
+  | .noRouting r => s!"route no_routing_found {routeReasonString r}"
+  | .exception w => s!"route exception {w}"
 
-/-- per-line accumulation of `SummaryResultAccumulator` (a `std::map` keyed by line uuid) -/
-def summaryCounts (lines : List Nat) : List (Nat × Nat) :=
-  (sortNat lines).foldl (fun acc l => match acc.getLast? with
-    | some (l', n) => if l' = l then acc.dropLast ++ [(l, n+1)] else acc ++ [(l, 1)]
-    | none => [(l, 1)]) []
+/-- `lineSummaries` of `SummaryResultAccumulator`: a `std::map` keyed by line uuid (kept in key
+    order); a boarding of a line not yet present inserts count 1, otherwise increments -/
+def summaryIncr (l : Nat) : List (Nat × Nat) → List (Nat × Nat)
+  | [] => [(l, 1)]
+  | (k, c) :: rest =>
+    if l < k then (l, 1) :: (k, c) :: rest
+    else if l = k then (k, c + 1) :: rest
+    else (k, c) :: summaryIncr l rest
 
-/-- `/v2/summary` -/
+def summaryCounts (lines : List Nat) : List (Nat × Nat) := lines.foldl (fun m l => summaryIncr l m) []
+
+/-- what `/v2/summary` reports for a list of routes: `nbRoutes` and (line, count) in line order -/
+def summaryOf (ds : Dataset) (rs : List Route) : Nat × List (Nat × Nat) :=
+  (rs.length, summaryCounts (rs.flatMap (routeLines ds)))
+
+/-- `/v2/summary`: same calculation, aggregated; "no routing" is a success with 0 routes -/
+def summaryAnswer (ds : Dataset) (p : Params) : Outcome (Nat × List (Nat × Nat)) :=
+  match routeAnswer ds p with
+  | .ok (rs, _) => .ok (summaryOf ds rs)
+  | .noRouting _ => .ok (summaryOf ds [])
+  | .exception w => .exception w
+
 def renderSummaryAnswer (ds : Dataset) (p : Params) : String :=
-  let render (rs : List Route) : String :=
-    let counts := summaryCounts (rs.flatMap (routeLines ds))
-    s!"summary success nb={rs.length} ## " ++ ", ".intercalate (counts.map fun (l, n) => s!"l{l} a{(ds.lineRec l).agency} {n}")
-  if p.alternatives then
-    match alternativesRouting ds p with
-    | .ok (rs, _) => render rs
-    | .noRouting _ => render []
-    | .exception w => s!"summary exception {w}"
-  else
-    match calculateSingle ds p with
-    | .ok r => render [r]
-    | .noRouting _ => render []
-    | .exception w => s!"summary exception {w}"
+  match summaryAnswer ds p with
+  | .ok (nb, counts) =>
+    s!"summary success nb={nb} ## " ++ ", ".intercalate (counts.map fun (l, n) => s!"l{l} a{(ds.lineRec l).agency} {n}")
+  | .noRouting _ => "summary exception unreachable"
+  | .exception w => s!"summary exception {w}"
 
 /-- `/v2/accessibility` -/
 def renderAccessibilityAnswer (ds : Dataset) (p : Params) : String :=
